@@ -734,12 +734,16 @@ func ZZChunkedFault() {
 	key := zzKey(kl)
 	w.keys = [][]byte{key}
 	n := 1 + rt.Choice("chunks", 3)
-	v := zzValue("v", n*p-1, p)
+	v := zzValue("v", n*p-3, p) // room for a 2-byte append inside the last chunk
 	fl := rt.U32("flags")
 	tok := zzTok()
 	zzStore(w.mc, key, v, fl, tok, 0)
 	statuses := []uint16{0x01, 0x02, 0x03, 0x04, 0x05, 0x81, 0x82, 0x84, 0x85, 0x86}
 	w.mc.FaultAt = rt.Choice("fault.at", n+3)
+	if rt.Choice("fault.late", 2) == 1 {
+		// the second half of a read-modify-write exchange (append/prepend: the re-store)
+		w.mc.FaultAt += n + 3
+	}
 	w.mc.FaultKind = 1 + rt.Choice("fault.kind", 4)
 	switch w.mc.FaultKind {
 	case model.FaultStatusReply:
@@ -753,7 +757,7 @@ func ZZChunkedFault() {
 	var err error
 	var nv []byte // value a faulted write was storing
 	var nfl uint32
-	cmd := rt.Choice("cmd", 6)
+	cmd := rt.Choice("cmd", 7)
 	switch cmd {
 	case 0:
 		var res common.GetResponse
@@ -780,6 +784,10 @@ func ZZChunkedFault() {
 		sfx := rt.Bytes("suffix", 2)
 		nv, nfl = append(append([]byte(nil), v...), sfx...), fl
 		err = w.h.Append(common.SetRequest{Key: key, Data: sfx})
+	case 6:
+		pfx := rt.Bytes("prefix", 2)
+		nv, nfl = append(append([]byte(nil), pfx...), v...), fl
+		err = w.h.Prepend(common.SetRequest{Key: key, Data: append([]byte(nil), pfx...)})
 	}
 	rt.Reach("call-returned")
 	rt.Assert("c10-chunked-no-wait-for-a-reply-that-never-comes", w.mc.Starved == 0)
